@@ -48,6 +48,14 @@ def load_module_file(file: str) -> dict:
         elif isinstance(node, ast.ImportFrom):
             for a in node.names:
                 imports.add(a.asname or a.name)
+    # nested functions: "outer.<locals>.inner"
+    def index_nested(prefix, fn):
+        for sub_ in ast.walk(fn):
+            if isinstance(sub_, ast.FunctionDef) and sub_ is not fn:
+                defs.setdefault(f"{prefix}.<locals>.{sub_.name}", sub_)
+
+    for key, fn in list(defs.items()):
+        index_nested(key, fn)
     m = {"src": src, "tree": tree, "defs": defs, "consts": consts, "funcs": funcs, "imports": imports, "classes": classes}
     _module_cache[key] = m
     return m
@@ -171,6 +179,8 @@ class Executor(HeapMixin, ExprMixin, CallMixin, ContractMixin, StmtMixin):
         for n in pnames:
             if n not in c.params:
                 raise Unsupported(f"parameter {n} of {c.qualname} has no kind in its contract")
+        # contract parameters that are not in the signature are closure variables of a nested function
+        pnames = pnames + [n for n in c.params if n not in pnames]
         for n in pnames:
             ks = c.params[n]
             kind = parse_kind(ks, self.reg.opaque)
@@ -261,6 +271,8 @@ class Executor(HeapMixin, ExprMixin, CallMixin, ContractMixin, StmtMixin):
                 else:
                     raise Unsupported(f"{kind} outside loop")
             res.n_return_paths = n_ret
+            if not outs and not res.vacuous:
+                raise Unsupported("no feasible path reaches the end of the unit (inconsistent context: contracts or requires contradict each other)")
         except Unsupported as ex:
             res.unsupported = str(ex)
         except z3.Z3Exception as ex:
@@ -303,7 +315,14 @@ class Executor(HeapMixin, ExprMixin, CallMixin, ContractMixin, StmtMixin):
                 self.oblige(s, "post", "result-kind", z3.BoolVal(False), None, note=f"returns {result.kind}, contract says {rk}")
                 return
         env2 = dict(env)
+        for nm, val in s.env.items():
+            if nm.startswith("SUMARG"):
+                env2[nm] = val
         env2["result"] = result
+        for name, lem in c.post_lemmas.items():
+            lenv = dict(s.env)
+            lenv.update(env2)
+            self.prove_lemma(name, lem, lenv, s)
         for wname, (gv, wk) in c.witnesses.items():
             if gv not in s.env or s.env[gv].bound is not None:
                 # the witness variable does not exist on this path: the clause must hold for every value
